@@ -19,6 +19,8 @@ def run(rep, idx, tier):
     rep.require("C13.6", 1)
     from . import glue
     glue.reset_discipline(rep, "C13.6", idx, ["event:Monitor"])
+    from .c19 import shared_state
+    shared_state(rep, idx, rule="C13.6", classes=["EventMap", "Monitor", "Source"])
     c = get_ctx(idx, "event:Monitor.elaborate")
     rep.analysed(c.fi.site)
     rep.count("drivers", len(c.t.drivers))
